@@ -221,6 +221,230 @@ theorem InvC.recover {l1 l2 : List QItem} {x : QItem} {u : Node}
       have := hI.rec_cnt t u'
       rw [count_mid] at this; omega }
 
+/-! #### an infection -/
+
+theorem mem_susB {st : Node → St} {tgt v : Node} :
+    v ∈ susB nbrs st tgt ↔ v ∈ nbrs tgt ∧ v ≠ tgt ∧ st v = St.S := by
+  unfold susB
+  simp only [List.mem_filter, decide_eq_true_eq]
+  by_cases hv : v = tgt
+  · subst hv; simp [fset_same]
+  · simp [fset_other _ _ _ _ hv, hv]
+
+theorem InvC.infect (h : WF nodes nbrs delay dur infs recs) {l1 l2 : List QItem} {x : QItem}
+    {src : Option Node} {tgt : Node}
+    (hI : InvC nodes nbrs delay dur tmin tmax infs recs st rt pr (l1 ++ x :: l2) tr)
+    (hmin : ∀ y ∈ l1 ++ x :: l2, x.time ≤ y.time)
+    (hev : x.ev = QEv.trans src tgt) (hs : st tgt = St.S) :
+    InvC nodes nbrs delay dur tmin tmax infs recs (fset st tgt St.I)
+      (fset rt tgt (ERat.add (some x.time) (dur tgt)))
+      (schB nbrs delay dur tmax st pr (l1 ++ l2) x.time tgt).1
+      (schB nbrs delay dur tmax st pr (l1 ++ l2) x.time tgt).2
+      ((x.time, src, tgt) :: tr) := by
+  have hx : x ∈ l1 ++ x :: l2 := by simp
+  have htlt : ERat.lt (some x.time) tmax = true := hI.q_lt x hx
+  obtain ⟨htn, hsrc⟩ := hI.q_tr x hx src tgt hev
+  obtain ⟨htr, hno⟩ := (hI.st_S tgt).1 hs
+  have hS : ∀ v, fset st tgt St.I v = St.S → v ≠ tgt ∧ st v = St.S := by
+    intro v hv
+    by_cases hvt : v = tgt
+    · subst hvt; rw [fset_same] at hv; cases hv
+    · rw [fset_other _ _ _ _ hvt] at hv; exact ⟨hvt, hv⟩
+  -- the new node is reached by a walk
+  have hwalk : ∃ p, TW nbrs delay dur tmin infs recs tgt p x.time := by
+    cases src with
+    | none =>
+      obtain ⟨h1, h2⟩ := hsrc
+      rw [h2]; exact ⟨[], GW.init _ ⟨h1, htr⟩⟩
+    | some u =>
+      obtain ⟨h1, eu, heu, hu, hadd⟩ := hsrc
+      obtain ⟨p, hp⟩ := hI.tr_walk eu heu
+      obtain ⟨a, b, ha, hb, hab⟩ := ERat.add_eq_some.1 hadd
+      injection ha with ha
+      rw [hu] at hp
+      rw [← hab, ← ha]
+      exact ⟨u :: p, GW.step _ _ _ _ _ hp ⟨h1, htr, hb⟩⟩
+  -- and no walk is shorter
+  have hopt : ∀ p L, TW nbrs delay dur tmin infs recs tgt p L → x.time ≤ L := by
+    intro p L hw
+    by_contra hlt
+    have hlt : L < x.time := not_le.1 hlt
+    have hLt : ERat.lt (some L) tmax = true :=
+      ERat.lt_of_le_of_lt (a := some L) (b := some x.time) (by simp; linarith) htlt
+    obtain ⟨e, he, hey, _⟩ := hI.claim h x.time hmin hw hlt hLt
+    exact hno e he hey
+  -- structure of the new queue
+  obtain ⟨r, hq1, hrlen, hr1, hr2⟩ := q1B_spec dur tmax (l1 ++ l2) x.time tgt
+  obtain ⟨ex, hq2, _, hex⟩ := schedule_struct tmax x.time tgt (ERat.add (some x.time) (dur tgt))
+    ((susB nbrs st tgt).map fun v => (v, delay tgt v)) pr (q1B dur tmax (l1 ++ l2) x.time tgt)
+  have hq : (schB nbrs delay dur tmax st pr (l1 ++ l2) x.time tgt).2 = l1 ++ l2 ++ r ++ ex := by
+    unfold schB; rw [hq2, hq1]
+  have hmono : ∀ w, ERat.le ((schB nbrs delay dur tmax st pr (l1 ++ l2) x.time tgt).1 w) (pr w) = true := by
+    intro w; unfold schB; exact schedule_mono ..
+  have hmemq : ∀ y, y ∈ (schB nbrs delay dur tmax st pr (l1 ++ l2) x.time tgt).2 ↔
+      y ∈ l1 ++ l2 ∨ y ∈ r ∨ y ∈ ex := by
+    intro y; rw [hq]; simp only [List.mem_append]; tauto
+  have hexev : ∀ y ∈ ex, ∃ v t, y = ⟨t, QEv.trans (some tgt) v⟩ ∧ v ∈ susB nbrs st tgt ∧
+      ERat.add (some x.time) (delay tgt v) = some t ∧ ERat.lt (some t) tmax = true ∧
+      ERat.le (some t) (ERat.add (some x.time) (dur tgt)) = true := by
+    intro y hy
+    obtain ⟨v, d, t, hvd, g1, g2, g3, g4⟩ := hex y hy
+    simp only [List.mem_map, Prod.mk.injEq] at hvd
+    obtain ⟨v', hv', rfl, rfl⟩ := hvd
+    exact ⟨v', t, g1, hv', g2, g3, g4⟩
+  have hsub : ∀ e ∈ tr, e ∈ (x.time, src, tgt) :: tr := fun e he => List.mem_cons_of_mem _ he
+  exact {
+    st_S := by
+      intro v
+      by_cases hvt : v = tgt
+      · subst hvt
+        rw [fset_same]
+        simp
+      · rw [fset_other _ _ _ _ hvt, hI.st_S v]
+        simp only [List.forall_mem_cons]
+        have : tgt ≠ v := fun e => hvt e.symm
+        tauto
+    tr_nodup := by
+      rw [List.map_cons, List.nodup_cons]
+      refine ⟨?_, hI.tr_nodup⟩
+      simp only [List.mem_map, not_exists, not_and]
+      exact fun e he => hno e he
+    tr_lt := by
+      intro e he
+      rcases List.mem_cons.1 he with rfl | he
+      · exact htlt
+      · exact hI.tr_lt e he
+    tr_src := by
+      intro e he
+      rcases List.mem_cons.1 he with rfl | he
+      · exact hsrc.mono hsub
+      · exact (hI.tr_src e he).mono hsub
+    tr_walk := by
+      intro e he
+      rcases List.mem_cons.1 he with rfl | he
+      · exact hwalk
+      · exact hI.tr_walk e he
+    tr_opt := by
+      intro e he
+      rcases List.mem_cons.1 he with rfl | he
+      · exact hopt
+      · exact hI.tr_opt e he
+    q_lt := by
+      intro y hy
+      rcases (hmemq y).1 hy with hy | hy | hy
+      · exact hI.q_lt y (mem_mid hy)
+      · obtain ⟨t, rfl, _, g⟩ := hr1 y hy; exact g
+      · obtain ⟨v, t, rfl, _, _, g, _⟩ := hexev y hy; exact g
+    q_tr := by
+      intro y hy src' v' hev'
+      rcases (hmemq y).1 hy with hy | hy | hy
+      · obtain ⟨g1, g2⟩ := hI.q_tr y (mem_mid hy) src' v' hev'
+        exact ⟨g1, g2.mono hsub⟩
+      · obtain ⟨t, rfl, _, g⟩ := hr1 y hy; cases hev'
+      · obtain ⟨v, t, rfl, hv, g1, g2, g3⟩ := hexev y hy
+        simp only [QEv.trans.injEq] at hev'
+        obtain ⟨rfl, rfl⟩ := hev'
+        obtain ⟨hvn, _, _⟩ := mem_susB.1 hv
+        refine ⟨h.nbr_mem tgt htn v hvn, ?_, (x.time, src, tgt), List.mem_cons_self .., rfl, g1⟩
+        unfold keeps
+        rw [Bool.and_eq_true, List.contains_iff_mem]
+        refine ⟨hvn, ?_⟩
+        rw [← g1, ERat.add_le_add_left_iff] at g3
+        exact g3
+    pred_edge := by
+      intro e he v d hk hv hd hlt
+      obtain ⟨hvt, hsv⟩ := hS v hv
+      rcases List.mem_cons.1 he with rfl | he
+      · simp only at hk hd hlt ⊢
+        have hvn : v ∈ nbrs tgt := by
+          unfold keeps at hk
+          rw [Bool.and_eq_true, List.contains_iff_mem] at hk; exact hk.1
+        have hkl : ERat.le (delay tgt v) (dur tgt) = true := by
+          unfold keeps at hk
+          rw [Bool.and_eq_true] at hk; exact hk.2
+        unfold schB
+        refine schedule_le tmax x.time tgt _ _ pr _ v (delay tgt v) (x.time + d) ?_ ?_ ?_ ?_
+        · simp only [List.mem_map, Prod.mk.injEq]
+          exact ⟨v, mem_susB.2 ⟨hvn, hvt, hsv⟩, rfl, rfl⟩
+        · rw [hd]; rfl
+        · have : ERat.add (some x.time) (delay tgt v) = some (x.time + d) := by rw [hd]; rfl
+          rw [← this, ERat.add_le_add_left_iff]; exact hkl
+        · exact ERat.le_of_lt hlt
+      · exact ERat.le_trans (hmono v) (hI.pred_edge e he v d hk hsv hd hlt)
+    pred_init := by
+      intro v hv hsv
+      exact ERat.le_trans (hmono v) (hI.pred_init v hv (hS v hsv).2)
+    pred_q := by
+      unfold schB
+      apply schedule_QJ
+      intro v p hv hp hlt
+      obtain ⟨hvt, hsv⟩ := hS v hv
+      obtain ⟨y, hy, hyt, src', hev'⟩ := hI.pred_q v p hsv hp hlt
+      refine ⟨y, ?_, hyt, src', hev'⟩
+      rw [hq1]
+      refine List.mem_append_left _ (mem_mid' hy ?_)
+      rintro rfl
+      rw [hev] at hev'; injection hev' with _ h2
+      exact hvt h2.symm
+    rec_time := by
+      intro e he
+      rcases List.mem_cons.1 he with rfl | he
+      · simp only [fset_same]
+      · rw [fset_other _ _ _ _ (hno e he)]; exact hI.rec_time e he
+    rec_R := by
+      intro v hv hr
+      have hvt : v ≠ tgt := by rintro rfl; rw [fset_same] at hv; cases hv
+      rw [fset_other _ _ _ _ hvt] at hv ⊢
+      exact hI.rec_R v hv hr
+    rec_I := by
+      intro v r0 h1 h2 h3
+      rw [hmemq]
+      by_cases hvt : v = tgt
+      · subst hvt
+        rw [fset_same] at h2
+        exact Or.inr (Or.inl (hr2 r0 h2 h3))
+      · rw [fset_other _ _ _ _ hvt] at h1 h2
+        refine Or.inl (mem_mid' (hI.rec_I v r0 h1 h2 h3) ?_)
+        intro heq
+        rw [← heq] at hev; cases hev
+    rec_q := by
+      intro y hy u hev'
+      rcases (hmemq y).1 hy with hy | hy | hy
+      · obtain ⟨g1, g2⟩ := hI.rec_q y (mem_mid hy) u hev'
+        have hut : u ≠ tgt := by rintro rfl; rw [hs] at g1; cases g1
+        rw [fset_other _ _ _ _ hut, fset_other _ _ _ _ hut]; exact ⟨g1, g2⟩
+      · obtain ⟨t, rfl, g1, _⟩ := hr1 y hy
+        simp only [QEv.recov.injEq] at hev'
+        subst hev'
+        rw [fset_same, fset_same]; exact ⟨rfl, g1⟩
+      · obtain ⟨v, t, rfl, _⟩ := hexev y hy; cases hev'
+    rec_cnt := by
+      intro t u
+      rw [hq, List.count_append, List.count_append]
+      have h3 : ex.count (⟨t, QEv.recov u⟩ : QItem) = 0 := by
+        apply List.count_eq_zero_of_not_mem
+        intro hin
+        obtain ⟨v, t', g, _⟩ := hexev _ hin
+        cases g
+      by_cases hut : u = tgt
+      · subst hut
+        have h1 : (l1 ++ l2).count (⟨t, QEv.recov u⟩ : QItem) = 0 := by
+          apply List.count_eq_zero_of_not_mem
+          intro hin
+          have := (hI.rec_q _ (mem_mid hin) u rfl).1
+          rw [hs] at this; cases this
+        have h2 := List.count_le_length (a := (⟨t, QEv.recov u⟩ : QItem)) (l := r)
+        omega
+      · have h2 : r.count (⟨t, QEv.recov u⟩ : QItem) = 0 := by
+          apply List.count_eq_zero_of_not_mem
+          intro hin
+          obtain ⟨t', g, _⟩ := hr1 _ hin
+          simp only [QItem.mk.injEq, QEv.recov.injEq] at g
+          exact hut g.2
+        have h1 := hI.rec_cnt t u
+        rw [count_mid] at h1
+        omega }
+
 end Inv
 
 end EventSIR
